@@ -66,6 +66,9 @@ type Packet struct {
 	Desc     string // canonical decoded form
 	Digest   bool
 	Request  bool
+	// SrcLeft: the nodes the sender itself listed as left when it produced
+	// the datagram (its state, not what the datagram says about them)
+	SrcLeft map[string]bool
 }
 
 type fakeFD struct{ level map[string]float64 }
@@ -540,6 +543,14 @@ func (w *World) onSend(from int, addr string, b []byte) {
 		w.violate("C13", "emit-size", "oversize-datagram", "node %s emitted %d bytes > max %d", w.nodes[from].ID, len(b), w.sc.MaxPacket)
 	}
 	p := &Packet{From: from, To: to}
+	if w.sc.Oracles.C11 {
+		p.SrcLeft = map[string]bool{}
+		for _, md := range w.nodes[from].State.Nodes() {
+			if md.Left {
+				p.SrcLeft[md.ID] = true
+			}
+		}
+	}
 	if len(b) >= 2 && b[0] == gossip.VMsgDigest {
 		h, d, err := gossip.VDecodeDigest(b)
 		if err != nil {
@@ -696,6 +707,12 @@ func (w *World) deliver(p *Packet) {
 						}
 					}
 				}
+			}
+			// a digest names whole nodes: if its sender listed the node as left,
+			// that is what the receiver must learn (a delta may be a prefix that
+			// ends before the marker, so for deltas the message itself decides)
+			if p.Digest && p.SrcLeft[id] {
+				l.srcKnewLeft = true
 			}
 			w.learned = append(w.learned, l)
 		}
